@@ -395,6 +395,11 @@ func evalConstructorDeclareStmt(vm *r.VM, node *syntax.FunctionDeclareStmt) erro
 	if !ok {
 		return zerr.InvalidClassType(className.GetLiteral())
 	}
+	// the constructor belongs to the module that defines the type: a predefined type or a
+	// type imported from a library / another module cannot be given a new one
+	if currentModule := vm.GetCurrentModule(); module == nil || currentModule == nil || module.GetID() != currentModule.GetID() {
+		return zerr.InvalidClassType(className.GetLiteral())
+	}
 
 	//// there are some different Factors from normal method function:
 	// 1. no outerScope (clousure scope)
